@@ -43,6 +43,22 @@ CHECKS = {
    text="TLC enumerates every BUF_TOKEN symbol string up to 5 (6) symbols over {t,u,@,',',':',host1,host2}, checks NoLeak, NetrcNoLeak, EnvFirst and TokenClean and emits the parse class and the per-host token; every string is given to the real bufcli.NewConnectClientConfig with a real .netrc file, clients are made with connectclient.Make for five hosts (two configured, one foreign, a suffix and a prefix look-alike) in rotating orders on one configuration, and the Authorization header that reaches the transport of a real connect client is compared; clients for two registries are also made concurrently from one configuration.",
    note="The registry is a recording RoundTripper, not a network peer; a well-formed token that the code rejects is not an alarm.",
    ref="4/C19"),
+ "C01": dict(engine="image", technique="TLC on ImageGraph.tla (transcribed target decision and post-order DFS, every small workspace) replayed on BuildImage with an ordered oracle and independent compilation",
+   text="TLC enumerates ordered import lists over five files in two modules, the unused import, target modules, --path/--exclude-path selections (incl. a look-alike directory), a workspace-supplied well-known type, a file without syntax and single planted compile errors, checks EachOnce, Closed, Topological, Flags, WktBuiltinUnlessSupplied and ExcludeIsPathWise for the transcribed algorithm, and emits the expected ordered image; every workspace is materialised on disk, built with BuildImage and compared element-wise in order (path, import flag, module, commit, unused-dependency indexes, syntax flag); every descriptor incl. source info is compared with an independent protocompile compilation; planted errors must come back as annotations at the planted file:line under the external path.",
+   note="Five fixed paths; at most two selection dimensions deviate from the default at once; path options are applied through LocalModuleWithTargetPaths (API semantics); the compiler is uninterpreted.",
+   ref="4/C01"),
+ "C06": dict(engine="check", technique="TLC on RulesConfig.tla over rule tables generated from the code, replayed on Client.Lint/Breaking/ConfiguredRules against measured per-rule results",
+   text="The rule IDs, categories, default bits and deprecations of every config version are dumped from the tree under test into RuleTables.tla; TLC enumerates configurations (use, except, ignore, ignore_only incl. a deprecated key plus one of its replacements, comment ignores, exclude-imports) and checks category nesting, existence of replacements, that lint never reports import-only files and that a look-alike ignore path suppresses nothing, and emits the selected rule set and the suppressed (rule, file, commented, against-file) places; the harness measures what each rule reports alone on fixed images with planted violations (incl. a message that moves between files of one package) and requires the real result to equal the union over the selected rules minus exactly the suppressed places.",
+   note="Alone(r) is measured, not specified; selection and suppression dimensions are explored against fixed representatives of each other; buf.yaml parsing is C16.",
+   ref="4/C06"),
+ "C10": dict(engine="image", technique="TLC on Workspace.tla (module-level reachability, precedence, error shapes) replayed on ModuleSetBuilder with an in-process provider",
+   text="TLC enumerates file-level import choices between three modules (incl. cycles), module B local / remote / both, every ordered selection of 1..3 pinned commits of module C (whose file imports differently per commit), a path provided twice, an import nobody provides and a vendored well-known type, and checks DepsAreReachability, DirectSubset and NewestWins; the harness builds the module set with the real builder over an in-process ModuleDataProvider/CommitProvider and compares ModuleDeps of every module (set, direct flags, error class), ModuleSetToDAG edges and cycle reporting, the selected commit, local-over-remote precedence and that the ls-files closure equals the files of the built image.",
+   note="Three module names and four files; coexisting error shapes accept any error; workspace discovery from buf.yaml/buf.work.yaml is not part of this check.",
+   ref="4/C10"),
+ "C17": dict(engine="image", technique="TLC on CodeGenRequests.tla / CodeGenResponses.tla replayed on ImageByDir, ImagesToCodeGeneratorRequests, ValidatePluginResponses and the on-disk ResponseWriter",
+   text="Requests: TLC enumerates import graphs over four files in three directories plus a well-known type, target sets, include_imports/include_wkt and the strategy, checks ExactlyOnce and ClosedAndOrdered for the transcribed bookkeeping and emits every request; the real requests must match (file_to_generate and proto_file order, source_file_descriptors count) and source-retention options must be stripped from proto_file only. Responses: TLC enumerates two plugins with three spellings of output directories (incl. nested) and seven file-name spellings (incl. escaping and absolute) and insertion points, checks Contained and NothingOnFailure and emits rejection class and written set; the real ValidatePluginResponses + ResponseWriter run on a scratch tree with sentinels.",
+   note="Plugin processes are not started (the responses are given); type filters and managed mode per plugin are C12 / C18.",
+   ref="4/C17"),
 }
 
 NOT_APPLICABLE = {}
